@@ -826,6 +826,10 @@ func (g *c01Gen) val(depth int) interface{} {
 		for i := range els {
 			els[i] = g.val(depth - 1)
 		}
+		if g.rng.Intn(4) == 0 { // []interface{}{ one typed list }
+			g.hist("ilist:single-list")
+			els = []interface{}{g.list()}
+		}
 		return []interface{}{"il", els}
 	case k < 76:
 		g.hist("expr")
@@ -1308,6 +1312,20 @@ func c01SpecCheck(r *Result, dialect string, in interface{}, m *c01Out, realSQL 
 				bad = fmt.Sprintf("placeholder #%d of the real text is $%d", k+1, p)
 				break
 			}
+		}
+	}
+	if bad != "" && strings.Contains(bad, "placeholder") && m.SQL == realSQL && len(m.Phs) == len(realVars) {
+		// Latitude: lexing the text is ambiguous where a literal digit / `?` / `$` of the template touches a
+		// placeholder (`$9` + `0` reads `$90`: seen only for doubly ill-formed rendered sub-queries, F21 inside db.Raw
+		// plus a surplus `?`, which `spec` does not exclude yet).  When the real text is byte-identical to the model's
+		// text, the model's structural placeholder list (Seg.ph, no lexing) decides.
+		ok := true
+		for k, p := range m.Phs {
+			ok = ok && p == k+1
+		}
+		if ok {
+			r.H("spec.lexer-ambiguity", "decided by Seg.ph")
+			bad = ""
 		}
 	}
 	if bad != "" {
